@@ -563,12 +563,40 @@ func Run(r *vk.Run) {
 					burst.More = append(burst.More, []world.Item{{D: true, I: j + 2}})
 				}
 				burst.More = append(burst.More, blockItems(j+1), []world.Item{{I: j + 2}})
+				if rep%2 == 1 && len(p.Txs[j+2]) > 0 {
+					// the same, but the data found early sits in the very first DA height of the scan
+					burst.DA = []world.Item{{D: true, I: j + 2}}
+					burst.More = [][]world.Item{blockItems(j), blockItems(j + 1), {{I: j + 2}}}
+					burst.StopAtExec = 2
+				}
 				sc.Actions = append(sc.Actions, burst)
 				for i := j + 3; i < len(p.Heights); i++ {
 					sc.Actions = append(sc.Actions, world.Action{Kind: "da", DA: blockItems(i)})
 				}
 				jobs = append(jobs, job{p, sc, true})
 			}
+		}
+	}
+	// (2c) bursty P2P delivery: the P2P stores jump by far more than a handful of heights between two ticks of the
+	// store loops (a node that was offline, or a peer that delivers in bulk)
+	for c := 0; c < r.N(2, 8); c++ {
+		n := 90 + rng.Intn(120)
+		shape := randShape(rng, n, false)
+		p, err := world.ProduceChain(ctx, buildSpec(shape, fmt.Sprintf("b%d", c)), keys)
+		if err != nil {
+			r.Violation("producer", "could not produce chain: "+err.Error(), nil)
+			return
+		}
+		last := len(p.Heights) - 1
+		cut := rng.Intn(last)
+		variants := [][]world.Action{
+			{{Kind: "p2p-h", I: last}, {Kind: "p2p-d", I: last}},
+			{{Kind: "p2p-d", I: last}, {Kind: "p2p-h", I: last}},
+			{{Kind: "p2p-h", I: cut}, {Kind: "p2p-d", I: last}, {Kind: "p2p-h", I: last}},
+		}
+		for _, acts := range variants {
+			jobs = append(jobs, job{p, Sched{ID: id, Chain: 3000 + c, Shape: fmt.Sprintf("%d blocks (p2p burst)", n), Actions: acts}, false})
+			id++
 		}
 	}
 	// (3) trigger region: repeated tx lists
@@ -593,7 +621,7 @@ func Run(r *vk.Run) {
 		go func() {
 			defer wg.Done()
 			for j := range ch {
-				RunSched(r, j.p, j.s, j.cache)
+				r.Guard(j.s, func() { RunSched(r, j.p, j.s, j.cache) })
 			}
 		}()
 	}
